@@ -249,7 +249,8 @@ def plot_body_factory(ctx):
         s["s"] = [0.0] * u.km / u.s
         s["K"] = [3.0] * u.km / u.s
         s["v0"] = [0.0] * u.km / u.s
-        for r in range(1, ns):
+        # (offset columns filled in ascending or descending order: a table is addressed by column name, not position)
+        for r in (range(1, ns) if case["seed"] % 2 else range(ns - 1, 0, -1)):
             s["dv0_%d" % r] = [case["offsets"][r - 1]] * u.km / u.s
         before = [(np.array(d.rv.value, copy=True), np.array(d.rv_err.value, copy=True), np.array(d._t_bmjd, copy=True)) for d in ds]
         pun = og.unit(case.get("plot_unit", case["unit"]))
